@@ -967,6 +967,15 @@ def _ccm_case(ctx, n, noncelen, taglen, aadlen, reference=True):
     ctx.begin(['sm4_ccm_encrypt', n, noncelen, taglen, aadlen])
     r = lib.sm4_ccm_encrypt(kb, nb, noncelen, ab, aadlen, ib, n, ob, taglen, tb)
     ct, tag = ob.raw(), tb.raw()
+    if n >= 1 << (8 * (15 - noncelen)):
+        # the length does not fit the 15 - noncelen octets CCM reserves for it: the mode is not defined for this message
+        _check(ctx, r != 1, 'sm4-ccm:encrypt:length-not-representable-accepted', ret=r, **det)
+        cb, tgb, pb = ctx.inbuf(msg), ctx.inbuf(bytes(taglen)), ctx.buf(n, FILL)
+        r2 = lib.sm4_ccm_decrypt(kb, nb, noncelen, ab, aadlen, cb, n, tgb, taglen, pb)
+        _check(ctx, r2 != 1, 'sm4-ccm:decrypt:length-not-representable-accepted', ret=r2, **det)
+        ctx.stat('ccm_unrepresentable_length_cases')
+        _free(cb, tgb, pb, kb, nb, ab, ib, ob, tb)
+        return
     if reference:
         wct, wtag = rm.ccm_encrypt(rsm4.SM4(key), nonce, aad, msg, taglen)
         if _check(ctx, r == 1, 'sm4-ccm:encrypt:call-failed', ret=r, **det):
